@@ -33,19 +33,24 @@ def gen_model(rng, dt):
         # 1x1 unpadded bias-free kernels, a single input channel, channels_last inputs
         k = rng.choice([1, 2])
         pad = rng.choice([0, 0, 1])
-        mods['conv'] = nn.Conv2d(cin, 3, k, padding=pad, bias=rng.random() < 0.5)
-        mods['bn'] = nn.BatchNorm2d(3)
+        cout = rng.choice([1, 3])       # a single output channel: reshaping the output gradient is a view, not a copy
+        mods['conv'] = nn.Conv2d(cin, cout, k, padding=pad, bias=rng.random() < 0.5)
+        mods['bn'] = nn.BatchNorm2d(cout)
         if rng.random() < 0.5:
-            mods['conv2'] = nn.Conv2d(3, 3, 1, bias=False)
+            mods['conv2'] = nn.Conv2d(cout, cout, 1, bias=False)
         mods['act0'] = nn.ReLU()
         mods['flat'] = nn.Flatten()
-        feat = 3 * (4 + 2 * pad - k + 1) ** 2
+        feat = cout * (4 + 2 * pad - k + 1) ** 2
     else:
         feat = 4
     mods['fc1'] = nn.Linear(feat, 5, bias=rng.random() < 0.7)
     mods['norm'] = nn.LayerNorm(5)
     mods['act1'] = nn.Tanh()
     mods['skipme'] = nn.Linear(5, 5)
+    # a skipped sub-tree whose attribute name contains a model-wrapper prefix ('module.') without being a wrapper
+    adapter = nn.Sequential()
+    adapter.add_module('fc', nn.Linear(5, 5))
+    mods['adapter_module'] = adapter
     mods['frozen'] = nn.Linear(5, 5)
     mods['partly'] = nn.Linear(5, 4)
     mods['head'] = nn.Linear(4, 3, bias=rng.random() < 0.7)
@@ -60,7 +65,7 @@ def gen_model(rng, dt):
     x = torch.randn(6, cin, 4, 4) if conv else torch.randn(6, 4)
     if conv and rng.random() < 0.4:
         x = x.contiguous(memory_format=torch.channels_last)
-    return m, x.to(dt), ['skip']
+    return m, x.to(dt), ['skip', rng.choice([r'adapter_module', r'^adapter_module\.fc$', r'_module\.'])]
 
 
 def snap_model(m):
@@ -131,6 +136,12 @@ def run(ctx):
                                    compute_eigenvalue_outer_product=(method == 'eigen' and rng.random() < 0.5),
                                    damping=0.05, inv_dtype=rng.choice([torch.float32, torch.float64]))
             registered = {n for n, _ in p._layers.values()}
+            # the layers the statement allows a step to touch, computed from the statement (not from the implementation)
+            eligible = {n for n, _ in reg.independent_walk(m, skip, False)}
+            if registered != eligible:
+                ctx.fail(f'registered layers {sorted(registered)} differ from the eligible ones {sorted(eligible)} '
+                         f'(skip patterns {skip}): step() will rewrite gradients outside / leave gradients inside the registered set',
+                         case, 'write-set-statement')
             if empty_first:
                 # an iteration in which the layers see no samples at all (e.g. an expert that got no tokens):
                 # all inputs are (vacuously) finite, the gradients are zero
@@ -153,8 +164,19 @@ def run(ctx):
                 sc = 1.0 if scaler is None else scaler
                 (y1.float().pow(2).mean() * sc).backward()
                 (y2.float().pow(2).mean() * sc).backward()
+            # (a registered full backward hook may hand the layer its output gradient in another memory format, so the
+            # summation order inside PyTorch's kernels — not the value — may change: compare up to rounding)
+            gtol = {torch.float64: 1e-11, torch.float32: 1e-4, torch.bfloat16: 0.2}[dt]
+
+            # relative to the largest gradient entry of the model: gradients that are mathematically zero (a bias in front
+            # of a normalisation layer) consist of rounding noise only
+            gscale = max([q.grad.float().abs().max().item() for q in twin.parameters() if q.grad is not None and q.grad.numel()] + [1e-30])
+
+            def close(a, b):
+                return a.shape == b.shape and a.dtype == b.dtype and \
+                    (a.float() - b.float()).abs().max().item() <= gtol * gscale
             for (n1, p1), (n2, p2) in zip(m.named_parameters(), twin.named_parameters()):
-                if (p1.grad is None) != (p2.grad is None) or (p1.grad is not None and not torch.equal(p1.grad, p2.grad)):
+                if (p1.grad is None) != (p2.grad is None) or (p1.grad is not None and not close(p1.grad, p2.grad)):
                     ctx.fail(f'autograd gradient of {n1} changed by registering K-FAC', case, 'autograd-changed')
                     break
             # ---- the step
